@@ -194,7 +194,9 @@ def tiny_reach_games():
     """Planted: states whose reachability value is positive but tiny (1e-9 .. 1e-6): not 'dead'.
     0: initial; 1: final; 2: sink; 3 = X (small chance to go on to Y), 4 = Y (small chance to win);
     5: a genuinely dead sibling so that pruning has something to remove."""
-    for e1, e2 in ((1e-4, 1e-3), (1e-3, 1e-3), (1e-2, 1e-5), (1e-5, 1e-4), (0.5, 1e-6), (1e-3, 5e-4)):
+    for e1, e2 in ((1e-4, 1e-3), (1e-3, 1e-3), (1e-2, 1e-5), (1e-5, 1e-4), (0.5, 1e-6), (1e-3, 5e-4),
+                   # live probability mass of a single state below 1e-9 (its value stays positive)
+                   (2.0 ** -34, 0.5), (1e-12, 0.5), (1e-10, 1e-3)):
         for owner0 in (PR, P1, P2):
             for rx, ry in ((3, 5), (0, 7), (2.5, 0)):
                 if owner0 == PR:
@@ -268,7 +270,9 @@ def slow_choice_games(tier="quick"):
                     for flip in (False, True):
                         for with_dead in (False, True):
                             combos.append((eps, delta, owner, flip, with_dead))
-        combos += [(1 / 8192, 10.0, P1, False, False), (1 / 8192, 0.05, P2, True, True), (2.0 ** -14, 25.0, P1, True, False)]
+        combos += [(1 / 8192, 10.0, P1, False, False), (1 / 8192, 0.05, P2, True, True), (2.0 ** -14, 25.0, P1, True, False),
+                   # about 2.5 x 10^6 and 1.4 x 10^7 sweeps (iteration caps of 10^6 / 10^7)
+                   (1e-5, 1.0, P1, False, False), (2e-6, 1.0, P2, True, False)]
     for eps, delta, owner, flip, with_dead in combos:
         loop_val = 1 / eps
         acts = [("a", 3), ("b", 2)] if flip else [("a", 2), ("b", 3)]
@@ -313,3 +317,25 @@ def corridor_games():
                 vals[0] = F(1) if owner == P1 else F(1, 2)
                 game = dict(rewards=[0] * n, players=players, transition_list=tl, final_states=[1])
                 yield game, vals, d + 2
+
+
+def cut_corridor_game(d, owner_cycle=(PR, P2), ascending=True):
+    """Planted: the root Player 1 state can go straight to the final state (value 1) or into a corridor of
+    d probabilistic / Player 2 states that ends in a 1/2 lottery.  The corridor action is not
+    reachability-optimal, so conditioning cuts it and the whole corridor becomes unreachable: clearing it
+    is a cascade d states deep (no Player 1 state inside, which would stop it)."""
+    n = 4 + d
+    cor = list(range(4, 4 + d)) if ascending else list(range(3 + d, 3, -1))
+    players = [P1, PR, PR, PR] + [None] * d
+    tl = [None] * n
+    tl[0] = [("a", 1), ("b", cor[0])]
+    tl[1] = [(1, 1)]
+    tl[2] = [(1, 2)]
+    tl[3] = [(0.5, 1), (0.5, 2)]
+    rew = [0, 0, 0, 1] + [0] * d
+    for i, s in enumerate(cor):
+        players[s] = owner_cycle[i % len(owner_cycle)]
+        nxt = cor[i + 1] if i + 1 < d else 3
+        tl[s] = [(1, nxt)] if players[s] == PR else [("go", nxt)]
+        rew[s] = 1 if i % 7 == 0 else 0
+    return dict(rewards=rew, players=players, transition_list=tl, final_states=[1])
